@@ -91,7 +91,7 @@ theorem cOr_zero (w : Nat) (a : Int) (h0 : 0 ≤ a) (h1 : a < 2^w) : cOr w 0 a =
 
 /-- closed C constant expressions (`1 << 14`, `(1 << 7) - 1`, …) and shifts by literals -/
 macro "c_const1" : tactic =>
-  `(tactic| ((try simp only [cShl, cShr, Int.reduceToNat, Int.reducePow, Int.reduceMul, Int.reduceSub, Int.reduceAdd] at *);
+  `(tactic| ((try simp only [cShl, cShr, Int.reduceToNat, Int.reducePow, Int.reduceMul, Int.reduceSub, Int.reduceAdd, Int.reduceDiv] at *);
              (try simp (disch := omega) only [wrapI32_id, wrapI64_id, wrapU32_id, wrapU64_id] at *)))
 macro "c_const" : tactic => `(tactic| (c_const1; c_const1; c_const1))
 
